@@ -8,6 +8,7 @@ ALL = [("G06_datachecker", "tools.tr.tr_datachecker", "write"),
        ("G02_registry", "tools.tr.tr_wire", "write"),
        ("G01_handlers", "tools.tr.tr_handlers", "write"),
        ("G09_rules", "tools.tr.tr_reclaim", "write"),
+       ("G13_lan", "tools.tr.tr_lan", "write"),
        ("G15_consts", "tools.tr.tr_dht_consts", "write"),
        ("G19_db", "tools.tr.tr_db", "write")]
 
